@@ -294,6 +294,20 @@ Proof.
   - rewrite (nth_overflow (repeat (vzeros m) n)) by (rewrite repeat_length; lia). destruct j; reflexivity.
 Qed.
 
+
+Lemma split_save_spec (hb : bool) (idim odim : nat) (s : rdo (F:=R)) (wo P : lmat) (cur : nat) :
+  wfm (if hb then S idim else idim) odim wo -> wfm idim odim (Wout s) -> length (bias s) = odim ->
+  let s' := split_save hb s wo P cur in
+  assemble hb s' = wo /\ wfm idim odim (Wout s') /\ length (bias s') = odim /\
+  (hb = false -> bias s' = bias s) /\ Pm s' = P.
+Proof.
+  intros WW WWo Hb. unfold split_save, assemble. destruct hb; cbn [Wout bias Pm].
+  - destruct wo as [|b w]; [destruct WW; discriminate|].
+    destruct WW as [HL HF]. inversion HF; subst. cbn in HL. cbn [hd tl].
+    repeat split; auto; try lia; try discriminate.
+  - repeat split; auto; try apply WW.
+Qed.
+
 (* ------------------------------------------------------------------ RLS: list-level step = index-level step *)
 Section RLSList.
 Variables (hb : bool) (idim odim : nat).
@@ -405,14 +419,10 @@ Proof.
   { eapply Inv_ext; [| |exact SI].
     - intros i j Hi Hj. unfold Mof. apply GP; assumption.
     - intros i j Hi Hj. unfold Mof. rewrite GW by assumption. unfold stepW. rewrite Ee by assumption. reflexivity. }
-  unfold split_save. destruct LI as [WP WWo Hb Hb0 HI]. clear GP GW SI.
-  generalize dependent wo'. unfold adim in *. destruct hb; intros wo' WW' EI.
-  - destruct wo' as [|b w]; [destruct WW'; discriminate|].
-    destruct WW' as [HL HF]. inversion HF; subst. cbn in HL.
-    constructor; cbn [Pm Wout bias hd tl]; auto.
-    + split; [lia|assumption].
-    + discriminate.
-  - constructor; cbn [Pm Wout bias]; auto.
+  destruct LI as [WP WWo Hb Hb0 HI]. clear GP GW SI.
+  destruct (split_save_spec hb idim odim s wo' P' (cursor s) WW' WWo Hb) as (E1 & E2 & E3 & E4 & E5).
+  constructor; rewrite ?E1, ?E5; auto.
+  intros Hf. rewrite (E4 Hf). auto.
 Qed.
 
 (* initial node *)
@@ -474,7 +484,7 @@ Proof.
     assert (EA : forall i j, fold_left (fun A p => stepA A (fst p)) (idx_samples samples) (fun i j => alpha * delta i j) i j = A i j).
     { intros i j. rewrite fold_stepA. unfold A, covA, idx_samples. rewrite map_map. reflexivity. }
     assert (EB : forall i j, fold_left (fun B p => stepB B (fst p) (snd p)) (idx_samples samples) (fun _ _ => 0) i j = B i j).
-    { intros i j. rewrite fold_stepB. unfold B, crossB, idx_samples. rewrite map_map. cbn [fst snd]. ring. }
+    { intros i j. rewrite fold_stepB. unfold B, crossB, idx_samples. rewrite map_map. cbn [fst snd]. unfold Vof. apply Rplus_0_l. }
     constructor.
     - exact HP.
     - intros i j Hi Hj. rewrite <- !EA. apply HA; assumption.
@@ -488,3 +498,108 @@ Proof.
   split; [apply (inv_norm _ _ _ _ _ _ HI')| apply (inv_solution _ _ _ _ _ _ HI')].
 Qed.
 End RLSList.
+
+(* ------------------------------------------------------------------ LMS step *)
+Lemma wfm_assemble_gen (hb : bool) (idim odim : nat) (s : rdo (F:=R)) :
+  wfm idim odim (Wout s) -> length (bias s) = odim -> wfm (if hb then S idim else idim) odim (assemble hb s).
+Proof.
+  intros [HW FW] Hb. unfold assemble. destruct hb; [|split; assumption].
+  split; [cbn; lia| constructor; assumption].
+Qed.
+
+Theorem lms_step (sc : sched (F:=R)) (hb : bool) (idim odim : nat) (s : rdo (F:=R)) (x y : lvec) :
+  wfm idim odim (Wout s) -> length (bias s) = odim -> length x = idim -> length y = odim ->
+  let s' := learn1 (readout_forward odim) (lms_update sc hb) s (x, y) in
+  let a := sched_at sc (cursor s) in
+  let r := augment hb x in
+  let pred := readout_forward odim s x in
+  cursor s' = S (cursor s) /\
+  wfm idim odim (Wout s') /\ length (bias s') = odim /\ (hb = false -> bias s' = bias s) /\
+  forall i j, (i < (if hb then S idim else idim))%nat -> (j < odim)%nat ->
+    mget (assemble hb s') i j = mget (assemble hb s) i j - a * (vget pred j - vget y j) * vget r i.
+Proof.
+  intros WWo Hb Hx Hy s' a r pred.
+  pose proof (wfm_assemble_gen hb idim odim s WWo Hb) as WW.
+  set (n := if hb then S idim else idim) in *.
+  assert (Hr : length r = n) by (unfold r, augment, n; destruct hb; cbn; lia).
+  assert (Lp : length pred = odim).
+  { unfold pred, readout_forward, vadd. destruct (vm_spec x (Wout s) idim odim Hx WWo) as [L _]. rewrite length_vzip; lia. }
+  set (e := rerror pred y).
+  assert (He : length e = odim) by (unfold e, rerror, vsub; rewrite length_vzip; lia).
+  assert (WO : wfm n odim (outer r e)).
+  { pose proof (wfm_outer r e) as Wo. rewrite Hr, He in Wo. exact Wo. }
+  pose proof (wfm_mscale (nopp a) _ _ _ WO) as WS.
+  assert (WW' : wfm n odim (lms_wo a (assemble hb s) r e)) by (apply (wfm_map2 nadd); assumption).
+  unfold s', learn1, lms_update. cbn [fst snd]. fold r pred e a.
+  destruct (split_save_spec hb idim odim s (lms_wo a (assemble hb s) r e) (Pm s) (S (cursor s)) WW' WWo Hb) as (E1 & E2 & E3 & E4 & E5).
+  split; [unfold split_save; destruct hb; reflexivity|].
+  split; [exact E2|]. split; [exact E3|]. split; [exact E4|].
+  intros i j Hi Hj. rewrite E1. unfold lms_wo, madd, vadd.
+  rewrite (mget_map2 nadd n odim) by assumption.
+  rewrite (mget_mscale _ n odim) by assumption.
+  rewrite mget_outer by lia.
+  unfold e, rerror, vsub. unfold vget at 2. rewrite nth_vzip by lia. unfold vget. numR. ring.
+Qed.
+
+(* ------------------------------------------------------------------ intrinsic plasticity kernels over R *)
+(* tanh units, Gaussian target N(mu, sigma):  delta_b = -eta(-mu/s^2 + y/s^2 (2 s^2 + 1 - y^2 + mu y)),  delta_a = eta/a + delta_b x
+   (Schrauwen et al. 2008, the rule quoted by gaussian_gradients) *)
+Definition doc_gauss_db (y mu sigma eta : R) : R :=
+  - eta * (- (mu / (sigma * sigma)) + (y / (sigma * sigma)) * (2 * (sigma * sigma) + 1 - y * y + mu * y)).
+(* sigmoid units, exponential target of mean mu:  delta_b = eta(1 - (2 + 1/mu) y + y^2/mu)   (Triesch 2005) *)
+Definition doc_exp_db (y mu eta : R) : R := eta * (1 - (2 + 1 / mu) * y + (y * y) / mu).
+
+Lemma gauss_db_doc y mu sigma eta : gauss_db y mu sigma eta = doc_gauss_db y mu sigma eta.
+Proof. unfold gauss_db, doc_gauss_db, n2. numR. ring. Qed.
+Lemma exp_db_doc y mu eta : exp_db y mu eta = doc_exp_db y mu eta.
+Proof. unfold exp_db, doc_exp_db, n2. numR. ring. Qed.
+
+Theorem ip_unit_tanh x y a b mu sigma eta :
+  ip_unit true mu sigma eta x y a b =
+    (a + (eta / a + doc_gauss_db y mu sigma eta * x), b + doc_gauss_db y mu sigma eta).
+Proof. unfold ip_unit, ip_da. rewrite gauss_db_doc. numR. reflexivity. Qed.
+Theorem ip_unit_sigmoid x y a b mu sigma eta :
+  ip_unit false mu sigma eta x y a b =
+    (a + (eta / a + doc_exp_db y mu eta * x), b + doc_exp_db y mu eta).
+Proof. unfold ip_unit, ip_da. rewrite exp_db_doc. numR. reflexivity. Qed.
+
+(* the same kernels as single fractions (what the rules are, as rational functions) *)
+Lemma doc_gauss_db_frac y mu sigma eta : sigma <> 0 ->
+  doc_gauss_db y mu sigma eta = eta * (mu - y * (2 * sigma * sigma + 1 - y * y + mu * y)) / (sigma * sigma).
+Proof. intros Hs. unfold doc_gauss_db. field. exact Hs. Qed.
+Lemma doc_exp_db_frac y mu eta : mu <> 0 ->
+  doc_exp_db y mu eta = eta * (mu - (2 * mu + 1) * y + y * y) / mu.
+Proof. intros Hm. unfold doc_exp_db. field. exact Hm. Qed.
+(* sanity of the rules: the bias of a tanh unit is not moved when y solves the stationarity cubic; a sigmoid unit whose
+   output is the fixed point y with y^2 - (2mu+1) y + mu = 0 is not moved either *)
+Lemma doc_exp_db_zero y mu eta : mu <> 0 -> y * y - (2 * mu + 1) * y + mu = 0 -> doc_exp_db y mu eta = 0.
+Proof. intros Hm E. rewrite doc_exp_db_frac by exact Hm. replace (mu - (2 * mu + 1) * y + y * y) with 0 by lra. field. exact Hm. Qed.
+
+(* ------------------------------------------------------------------ RLS through the train loop *)
+Lemma Forall_selected {A} (Pp : A -> Prop) k (xy : list A) :
+  Forall Pp xy -> Forall Pp (map snd (filter (fun p => fst p mod k =? 0)%nat (combine (seq 0 (length xy)) xy))).
+Proof.
+  intros HF. rewrite Forall_forall in *. intros x Hin. apply in_map_iff in Hin as [[i x'] [<- Hin]].
+  apply filter_In in Hin as [Hin _]. apply in_combine_r in Hin. cbn. auto.
+Qed.
+
+Theorem rls_train_calls_invariant (hb : bool) (idim odim k : nat) (alpha : R) (calls : list (list (lvec * lvec))) :
+  0 < alpha ->
+  Forall (Forall (fun p => length (fst p) = idim /\ length (snd p) = odim)) calls ->
+  let samples := concat (map (selected k) calls) in
+  let s := fst (train_calls (readout_forward odim) (rls_update hb) k (rls_init hb idim odim alpha) calls) in
+  let n := adim hb idim in
+  let P := Mof (Pm s) in let W := Mof (assemble hb s) in
+  let A := covA hb alpha samples in let B := crossB hb samples in
+  (forall i j, (i < n)%nat -> (j < n)%nat -> P i j = P j i) /\
+  (forall i j, (i < n)%nat -> (j < n)%nat -> bsum n (fun l => P i l * A l j) = delta i j) /\
+  (forall i j, (i < n)%nat -> (j < n)%nat -> bsum n (fun l => A i l * P l j) = delta i j) /\
+  (forall i j, (i < n)%nat -> (j < odim)%nat -> bsum n (fun l => A i l * W l j) = B i j) /\
+  (forall i j, (i < n)%nat -> (j < odim)%nat -> W i j = bsum n (fun l => P i l * B l j)).
+Proof.
+  intros Ha HF samples s. unfold s. rewrite train_calls_gate. fold samples.
+  apply rls_invariant; [exact Ha|].
+  unfold samples. clear -HF. induction calls as [|c cs IH]; cbn [map concat]; [constructor|].
+  inversion HF; subst. apply Forall_app. split; [|apply IH; assumption].
+  unfold selected. apply Forall_selected. assumption.
+Qed.
